@@ -16,6 +16,10 @@ Local Open Scope Z_scope.
 (* the C dialect the emitted code is compiled in, from the scraped base flags *)
 Definition base_mode : cmode := mk_mode gcc_base_has_fwrapv false.
 
+(* the division helpers exactly as emitted: the position of the `b == -1` line comes from Gen.v *)
+Definition idiv_helper := emitted_idiv_helper idiv_guard_first.
+Definition imod_helper := emitted_imod_helper imod_guard_first.
+
 (* nelua_assert_bounds_<T>(index, len):
      if((usize)index >= len || index < 0) panic;  return index;        unchecked: bare index *)
 Definition h_bounds (it : ity) (checked : bool) (index len : Z) : outcome :=
